@@ -52,7 +52,13 @@ def gen_pair(rng, idx):
     if rng.random() < 0.3:
         # one method's temporary is called like the (only) loop counter name the generator uses
         k = rng.choice([0, 1])
-        used = pg.var_roles(progs[k])
+        used = set(pg.var_roles(progs[k]))
+        # (a method that itself loops over i must not get a temporary i: its own loop would unset it -- an ill-formed
+        # program of my making, reported as a violation once in the thorough tier; false alarm corrected)
+        for ph in progs[k]["phases"]:
+            for op in pg.walk_ops(ph["ops"]):
+                if op[0] == "assign":
+                    used |= {lv for lv, _, _ in op[3]}
         cand = [n for n in ("a", "b", "c") if n in used]
         if cand and "i" not in used:
             nm = progs[k]["name"]
@@ -80,6 +86,13 @@ CORPUS = [
     (pg.P1([["assign", "i", pg.ADD(pg.V("<state>x"), pg.DT), []], ["assign", "<p>ka", pg.V("i"), []], ["assign", "<state>y", pg.ADD(pg.V("i"), pg.Y), []]]),
      pg.P1([["assign", "acc", pg.C(1), []], ["assign", "acc", pg.MUL(pg.V("acc"), pg.ADD(pg.V("i"), pg.C(1))), [["i", pg.C(0), pg.C(2)]]],
             ["assign", "<state>z", pg.V("acc"), []]])),
+    # a same-named ARRAY temporary in both methods, filled through subscripted assignments
+    (pg.P1([["assign", "w", ["call", "<builtin>array", [pg.C(3)], {}], []],
+            ["assign", ["sub", "w", pg.V("i")], pg.ADD(pg.V("<state>x"), pg.V("i")), [["i", pg.C(0), pg.C(3)]]],
+            ["assign", "<state>y", pg.ADD(["sub", pg.V("w"), pg.C(1)], ["sub", pg.V("w"), pg.C(2)]), []]]),
+     pg.P1([["assign", "w", ["call", "<builtin>array", [pg.C(2)], {}], []],
+            ["assign", ["sub", "w", pg.V("i")], pg.MUL(pg.V("<state>x"), pg.ADD(pg.V("i"), pg.C(2))), [["i", pg.C(0), pg.C(2)]]],
+            ["assign", "<state>z", pg.ADD(["sub", pg.V("w"), pg.C(0)], ["sub", pg.V("w"), pg.C(1)]), []]])),
     # ... and the loop's own statement does not mention its counter (C16-F4)
     (pg.P1([["assign", "i", pg.ADD(pg.V("<state>x"), pg.C(1)), []], ["assign", "<state>y", pg.MUL(pg.V("i"), pg.C(2)), []],
             ["assign", "<p>ka", pg.ADD(pg.V("i"), pg.T), []]]),
@@ -222,6 +235,17 @@ def run_steps(dag, prog_for_init, K, concrete=None, ufs=None):
     """Yield persistent snapshots after each completed/failed step."""
     funcs = backends.sym_user_functions() if concrete is None else backends.concrete_user_functions(ufs or {})
     it = backends.make_interpreter(dag, funcs, builtin_stubs=concrete is None)
+    if concrete is None:
+        # <builtin>array(n) for a constant n: a real (zero-filled) array of proxies, so that array temporaries and
+        # subscripted assignments are executed (the other built-ins stay uninterpreted)
+        def sym_array(n):
+            if isinstance(n, symx.SymNum):
+                n1 = z3.simplify(n.t)
+                if not z3.is_int_value(n1):
+                    raise symx.Unmodelled("array of symbolic size")
+                n = n1.as_long()
+            return symx.SymArr([symx.SymNum(0) for _ in range(int(n))])
+        it.functions["<builtin>array"] = sym_array
     t0, dt0, ctx = backends.initial_values(prog_for_init, concrete=concrete)
     it.set_up(t_start=t0, dt_start=dt0, context=ctx)
     snaps = []
